@@ -4,7 +4,7 @@ from lib import vf
 
 LEVEL = "model_checking"
 
-GROUP = {"bytes": "tx", "stream": "tx", "reader": "tx", "reader1": "tx", "readerp": "tx", "listp": "txs", "jsondoc-tx": "tx-json", "jsondoc-input": "input-json", "jsondoc-output": "output-json", "jsondoc-utxo": "utxo-json", "jsondoc-nodeutxo": "utxo-json", "json": "tx-json", "jsonnode": "tx-json",
+GROUP = {"bytes": "tx", "bytes-retained": "tx", "stream": "tx", "reader": "tx", "reader1": "tx", "readerp": "tx", "listp": "txs", "jsondoc-tx": "tx-json", "jsondoc-input": "input-json", "jsondoc-output": "output-json", "jsondoc-utxo": "utxo-json", "jsondoc-nodeutxo": "utxo-json", "json": "tx-json", "jsonnode": "tx-json",
          "jsonhex": "tx-json", "jsonnodehex": "tx-json", "list": "txs", "input": "input", "inputext": "input", "output": "output"}
 
 
